@@ -233,7 +233,9 @@ func (g *gen) agg0() simenv.AggReq {
 	case 5:
 		return simenv.AggReq{Func: "avg", Field: "num", GroupBy: "svc"}
 	default:
-		return simenv.AggReq{Func: "quantile", Field: "num", GroupBy: "svc", Quantiles: []float64{0.5, 0.99}}
+		// (only the extremes: the store then collects no samples at all)
+		qs := [][]float64{{0.5, 0.99}, {0.5, 0.99}, {0, 1}, {1}, {0}, {0, 0.5, 1}}[g.r.Intn(6)]
+		return simenv.AggReq{Func: "quantile", Field: "num", GroupBy: []string{"svc", "svc", ""}[g.r.Intn(3)], Quantiles: qs}
 	}
 }
 
